@@ -51,7 +51,7 @@ def test_fields(rng):
                 for b in els:
                     _check(F.mul(a, b) == F.mul(b, a), "Fp2 commutative")
                     _check(F.sgn0(a) == F.sgn0_rfc(a), "sgn0")
-            for a, b, c in itertools.islice(itertools.product(els, repeat=3), 0, None, 7):
+            for a, b, c in itertools.islice(itertools.product(els, repeat=3), 0, None, 7 if p < 7 else 97):
                 _check(F.mul(a, F.add(b, c)) == F.add(F.mul(a, b), F.mul(a, c)), "Fp2 distributive")
                 _check(F.mul(a, F.mul(b, c)) == F.mul(F.mul(a, b), c), "Fp2 associative")
     # real fields: inverse by Euclid == Fermat power, Frobenius is a ring map
